@@ -85,6 +85,15 @@ def main():
             tgt = [near(kb, 1.0 + gap, 3000.0 + df), near(kb, 6.0, 3000.0)]
             s.case(None, ("buffers", ka, kb, bufs, gap, df), sample=dict(source=[g.coordinates for g in src], target=[g.coordinates for g in tgt], buffers=bufs))
             check(s, f"buffers={bufs} {ka} vs {kb} gap={gap} df={df}", src, tgt, buffers=bufs)
+    # near ties: two pairings whose totals differ by less than 1e-6 (the optimum is over the exact affinities)
+    def iv(end):
+        return data.TimeInterval(coordinates=[0.0, end])
+    check(s, "near tie (fixed)", [iv(1.0), iv(0.8999985)], [iv(0.9000017), iv(0.9000021)])
+    steps = range(-3, 4) if s.tier == "quick" else range(-6, 7)
+    for i, j, k in itertools.product(steps, repeat=3):
+        a, b, c = 0.9 + i * 3.3e-7, 0.9 + j * 4.1e-7, 0.9 + k * 2.9e-7
+        s.case(None, ("near-tie", i, j, k), sample=dict(source=[[0.0, 1.0], [0.0, a]], target=[[0.0, b], [0.0, c]]))
+        check(s, f"near tie {i},{j},{k}", [iv(1.0), iv(a)], [iv(b), iv(c)])
     for k in range(60 if s.tier == "quick" else 600):
         n, m = s.rng.randint(0, 6), s.rng.randint(0, 6)
         src = [random_geometry(s.rng, s.rng.choice(TYPES), tmax=4.0) for _ in range(n)]
